@@ -566,3 +566,93 @@ def variants(world, tier="quick", only=None):   # noqa: F811
                     continue
                 out.append(v)
     return out
+
+
+# ---------------------------------------------------------------------------
+# the remaining operators of FNode: reflected subtraction, division, unary minus and inversion
+# ---------------------------------------------------------------------------
+# (x / y goes through FormulaManager.Div, whose rewriting of a division by a constant is a C01 / C03 matter: not specified here)
+
+
+class ReflectedSubVariant(Variant):
+    """y.__rsub__(x)  (evaluated for `x - y` when x does not handle it): denotes x - y - the operands swap"""
+    prop_ids = ("C06",)
+    qualname = "pysmt.fnode.FNode.__rsub__"
+    name = "infix:__rsub__"
+
+    def __init__(self, world):
+        self.world = world
+
+    def setup(self, ex):
+        W = self.world
+        core.make_env(ex, W)
+        self.x, self.y = z3.Const("left", Node), z3.Const("self_operand", Node)
+        for n in (self.x, self.y):
+            W.touch(ex, n)
+            ex.assume(z3.Not(Ty.is_FunT(ty(n))))
+        fi = W.repo.func(self.qualname)
+        return W.wrap_func(fi, fi.module, bound=self.y), [self.x], {}
+
+    def check(self, ex, outcome):
+        xs = [self.x, self.y]
+        isbv = is_bv(ty(self.y))
+        a, b = SPECS["Minus"], SPECS["BVSub"]
+        ok = z3.If(isbv, b.applicable(xs, []), a.applicable(xs, []))
+        kind, r = outcome
+        if kind == "raise":
+            return [("C06:infix-raises-only-if-ill-formed", z3.Not(ok))]
+        if not is_node(r):
+            return [("returns-node", z3.BoolVal(False))]
+        self.world.touch(ex, r)
+        return [("C06:infix-ill-formed-rejected", ok),
+                ("C06:infix-denotes-named-function", z3.Implies(ok, v(r) == z3.If(isbv, b.rval(xs, []), a.rval(xs, []))))]
+
+
+class UnaryOperatorVariant(Variant):
+    """-x  and  ~x : arithmetic negation / two's complement negation; Boolean negation / bit-wise complement"""
+    prop_ids = ("C06",)
+
+    def __init__(self, world, meth):
+        self.world, self.meth = world, meth
+        self.qualname = "pysmt.fnode.FNode." + meth
+        self.name = "infix:" + meth
+
+    def setup(self, ex):
+        W = self.world
+        core.make_env(ex, W)
+        self.x = z3.Const("x0", Node)
+        W.touch(ex, self.x)
+        ex.assume(z3.Not(Ty.is_FunT(ty(self.x))))
+        fi = W.repo.func(self.qualname)
+        return W.wrap_func(fi, fi.module, bound=self.x), [], {}
+
+    def check(self, ex, outcome):
+        x = self.x
+        isbv = is_bv(ty(x))
+        if self.meth == "__neg__":
+            ok = z3.Or(isbv, ty(x) == IntT, ty(x) == RealT)
+            want = z3.If(isbv, SPECS["BVNeg"].rval([x], []), mknum(ty(x), -num(x)))
+        else:
+            ok = z3.Or(isbv, ty(x) == BoolT)
+            want = z3.If(isbv, SPECS["BVNot"].rval([x], []), SPECS["Not"].rval([x], []))
+        kind, r = outcome
+        if kind == "raise":
+            return [("C06:infix-raises-only-if-ill-formed", z3.Not(ok))]
+        if not is_node(r):
+            return [("returns-node", z3.BoolVal(False))]
+        self.world.touch(ex, r)
+        return [("C06:infix-ill-formed-rejected", ok), ("C03:result-type", z3.Implies(ok, ty(r) == ty(x))),
+                ("C06:infix-denotes-named-function", z3.Implies(ok, v(r) == want))]
+
+
+_base_variants6c = variants
+
+
+def variants(world, tier="quick", only=None):   # noqa: F811
+    out = _base_variants6c(world, tier, only)
+    extra = [ReflectedSubVariant(world), UnaryOperatorVariant(world, "__neg__"), UnaryOperatorVariant(world, "__invert__")]
+    for v_ in extra:
+        if only and v_.name not in only and "infix" not in only:
+            continue
+        out.append(v_)
+    return out
